@@ -95,6 +95,30 @@ struct EAssignHook {
   static int state_of(const EAssignHook &) { return ES_ALIVE; }
 };
 
+/// trivial copy constructor and destructor, user-provided move constructor: copying it bit by bit where a *move* is required skips
+/// the move constructor (the source keeps its value).  Not trivially copyable, not declared trivially relocatable.
+static unsigned long g_userMoves = 0;  // calls of EUserMove's move constructor (a side effect the optimiser cannot remove, unlike stores into an
+                                       // object whose lifetime ends right afterwards)
+struct EUserMove {
+  int key_, pay_;
+  EUserMove() = default;
+  EUserMove(int k, int p) : key_(k), pay_(p) {}
+  EUserMove(const EUserMove &) = default;
+  EUserMove(EUserMove &&o) noexcept : key_(o.key_), pay_(o.pay_) { o.key_ = kPoisonKey; o.pay_ = kPoisonKey; ++g_userMoves; }
+  EUserMove &operator=(const EUserMove &) = default;
+  int k() const { return key_; }
+  int p() const { return pay_; }
+  static const bool kHooks = false;
+  static int state_of(const EUserMove &e) { return e.key_ == kPoisonKey ? ES_MOVED : ES_ALIVE; }
+};
+/// source / destination of different types: the destination is constructed from the source by a converting constructor that can throw
+struct ESrcH {
+  int key_, pay_;
+};
+struct EDstH : ENonTr<true> {
+  EDstH(const ESrcH &s) : ENonTr<true>(s.key_, s.pay_) {}
+};
+
 // ------------------------------------------------------------------------------------------------ iterator wrappers
 template <class T, class Cat>
 struct WrapIt {
@@ -207,8 +231,9 @@ enum IterKind { I_PTR = 0, I_RA, I_BIDI, I_FWD, I_MOVE, I_INPUT, I_CPTR, I_REV, 
 static const char *kIterNames[] = {"pointer", "random_access", "bidirectional", "forward", "move_iterator", "single_pass_input", "const_pointer",
                                    "reverse_pointer", "strided_random_access", "pointer_to_reverse_dest", "random_access_to_forward_dest",
                                    "strided_to_random_access_dest"};
-enum ValKind { VAL_TRIV = 0, VAL_TR, VAL_NONTR, VAL_THROWMOVE, VAL_AGG, VAL_ASSIGNHOOK, VAL_NVAL };
-static const char *kValNames[] = {"trivial", "ETr", "ENonTr", "EThrowMove", "aggregate", "trivial_ctor_user_assign"};
+enum ValKind { VAL_TRIV = 0, VAL_TR, VAL_NONTR, VAL_THROWMOVE, VAL_AGG, VAL_ASSIGNHOOK, VAL_USERMOVE, VAL_HETERO, VAL_NVAL };
+static const char *kValNames[] = {"trivial", "ETr", "ENonTr", "EThrowMove", "aggregate", "trivial_ctor_user_assign", "trivial_copy_user_move",
+                                  "converting_src_to_dst"};
 
 struct Case {
   int algo, len, iter, val, throwIdx;
@@ -221,6 +246,8 @@ static Case g_cur;
 
 template <class T> struct IsAggVal { static const bool value = false; };
 template <> struct IsAggVal<EAgg> { static const bool value = true; };
+template <class T> struct TracksMove { static const bool value = false; };
+template <> struct TracksMove<EUserMove> { static const bool value = true; };
 template <class T> struct IsTrivVal { static const bool value = false; };
 template <> struct IsTrivVal<ETriv> { static const bool value = true; };
 template <> struct IsTrivVal<EAssignHook> { static const bool value = true; };  // as far as construction goes
@@ -305,6 +332,7 @@ struct Runner {
     bool hasRetIt = false;
     G.faultKind = c.throwIdx >= 0 ? F_ELEM : F_NONE; G.faultCountdown = c.throwIdx; G.faultFired = false;
     long live0 = g_elems.liveArmed;
+    unsigned long userMoves0 = g_userMoves;
     try {
       Arm a;
       switch (c.algo) {
@@ -320,6 +348,8 @@ struct Runner {
     G.armed = false; G.faultKind = F_NONE;
     bool reloc = c.algo == A_URELOC || c.algo == A_URELOC_N;
     bool moves = reloc || c.algo == A_UMOVE || c.algo == A_UMOVE_N || c.iter == I_MOVE;
+    if (TracksMove<T>::value && !threw && moves && c.iter != I_CPTR && g_userMoves - userMoves0 != (unsigned long)n)
+      fail("a type that is neither trivially copyable nor declared trivially relocatable was copied bit by bit instead of moved (move constructor calls != n)");
     for (int j = 0; j < src_count() && g_fail.empty(); ++j)
       if (!mapped(j) && (T::state_of(src[j]) != ES_ALIVE || src[j].k() != srcVals[j].key))
         fail(sStep == 2 ? "non-contiguous source range: an object between the elements of the range was read, moved or modified"
@@ -339,10 +369,11 @@ struct Runner {
         if (reloc) {
           if (amc::is_trivially_relocatable<T>::value) { /* bytes copied, source is dead storage: its identity now lives in dst */ }
           else if (T::kHooks && st != ES_DEAD && st != ES_GARBAGE) fail("relocate: source object was not destroyed");
+          /* the sources of a relocation are destroyed: their state must not be read; the move constructor calls are counted instead (below) */
         } else if (moves && c.iter == I_CPTR) {
           if (st != ES_ALIVE) fail("move from a const source: the source object changed state");
         } else if (moves) {
-          if (T::kHooks && st != ES_MOVED && !IsTrivVal<T>::value) fail("move: source object is not in a moved-from state");
+          if ((T::kHooks || TracksMove<T>::value) && st != ES_MOVED && !IsTrivVal<T>::value) fail("move: source object is not in a moved-from state (its move constructor did not run)");
         } else if (st != ES_ALIVE) {
           fail("copy: source object changed state");
         } else if (sv.k() != srcVals[sidx(i)].key) fail("copy: source value changed");
@@ -384,6 +415,7 @@ struct Runner {
           if (ret != dst) fail("construct_at did not return its first argument");
           if (T::state_of(*dst) != ES_ALIVE || dst->k() != 7 || dst->p() != 77) fail("construct_at built a wrong object");
           if (T::kHooks && g_elems.liveArmed - live0 != 1) fail("construct_at: not exactly one object created");
+          if (TracksMove<T>::value && c.algo == A_CONSTRUCT_AT_MOVE && T::state_of(tmp) != ES_MOVED) fail("construct_at(p, std::move(x)) did not run the move constructor (x keeps its value)");
           dst->~T();
         } else if (T::kHooks && g_elems.liveArmed != live0) fail("construct_at threw but an object stays alive");
         destroy_sources();
@@ -408,7 +440,7 @@ struct Runner {
       } break;
       case A_UDEFAULT: case A_UDEFAULT_N: case A_UVALUE: case A_UVALUE_N: {
         bool value = c.algo == A_UVALUE || c.algo == A_UVALUE_N;
-        if (IsTrivVal<T>::value) memset((void *)dst, 0x5A, (size_t)(n ? n : 1) * sizeof(T));
+        if (IsTrivVal<T>::value || TracksMove<T>::value) memset((void *)dst, 0x5A, (size_t)(n ? n : 1) * sizeof(T));
         G.faultKind = c.throwIdx >= 0 ? F_ELEM : F_NONE; G.faultCountdown = c.throwIdx; G.faultFired = false;
         T *ret = dst + n;
         unsigned long assign0 = g_assignCalls;
@@ -424,7 +456,7 @@ struct Runner {
         if (!threw) {
           if (ret != dst + n) fail("returned iterator is not first + n");
           for (int i = 0; i < n && g_fail.empty(); ++i) {
-            if (IsTrivVal<T>::value) {
+            if (IsTrivVal<T>::value || TracksMove<T>::value) {  // trivial default constructor: only value-initialisation gives a value
               if (value && (dst[i].k() != 0 || dst[i].p() != 0)) fail("value construction of a trivial type did not zero it");
             } else if (IsAggVal<T>::value) {
               if (dst[i].p() != 7) fail("default/value construction did not run the member's default constructor");
@@ -441,12 +473,14 @@ struct Runner {
         if (!n) { G.faultFired = false; break; }
         G.faultKind = c.throwIdx >= 0 ? F_ELEM : F_NONE; G.faultCountdown = c.throwIdx; G.faultFired = false;
         T *ret = nullptr;
+        unsigned long userMovesAt0 = g_userMoves;
         try { Arm a; ret = amc::relocate_at(src, dst); } catch (SimFault &) { threw = true; }
         G.armed = false; G.faultKind = F_NONE;
         if (!threw) {
           if (ret != dst) fail("relocate_at did not return dest");
           check_dst_values(1, "relocate_at");
           if (T::kHooks && !amc::is_trivially_relocatable<T>::value && alive(src[0])) fail("relocate_at: source was not destroyed");
+          if (TracksMove<T>::value && g_userMoves - userMovesAt0 != 1) fail("relocate_at of a type that is not trivially relocatable: the source was copied bit by bit instead of moved from");
           destroy_dst(1);
           destroy_sources(1);
         } else {
@@ -488,6 +522,55 @@ struct Runner {
     release_blocks();
   }
 };
+
+// source and destination of different types (ESrcH -> EDstH through a converting constructor that can throw)
+template <class It>
+static void hetero_algo(const Case &c, It first, ESrcH *src, EDstH *dst, int n) {
+  It last = first;
+  std::advance(last, n);
+  bool threw = false;
+  EDstH *ret = dst;
+  G.faultKind = c.throwIdx >= 0 ? F_ELEM : F_NONE; G.faultCountdown = c.throwIdx; G.faultFired = false;
+  long live0 = g_elems.liveArmed;
+  try {
+    Arm a;
+    switch (c.algo) {
+      case A_UCOPY: ret = amc::uninitialized_copy(first, last, dst); break;
+      case A_UCOPY_N: ret = amc::uninitialized_copy_n(first, n, dst); break;
+      case A_UMOVE: ret = amc::uninitialized_move(first, last, dst); break;
+      case A_UMOVE_N: ret = amc::uninitialized_move_n(first, n, dst).second; break;
+      case A_URELOC: ret = amc::uninitialized_relocate(first, last, dst); break;
+      default: ret = amc::uninitialized_relocate_n(first, n, dst).second; break;
+    }
+  } catch (SimFault &) { threw = true; }
+  G.armed = false; G.faultKind = F_NONE;
+  for (int i = 0; i < n && g_fail.empty(); ++i)
+    if (src[i].key_ != 10 + i || src[i].pay_ != 100 + i) fail("converting algorithm: a (trivial) source object was modified");
+  if (!threw) {
+    if (ret != dst + n) fail("returned destination iterator is not dest + n");
+    for (int i = 0; i < n && g_fail.empty(); ++i)
+      if (EDstH::state_of(dst[i]) != ES_ALIVE || dst[i].k() != 10 + i || dst[i].p() != 100 + i) fail("converting algorithm: destination object is wrong");
+    if (g_elems.liveArmed - live0 != n) fail("number of objects created in the destination is not n");
+    for (int i = 0; i < n; ++i) if (EDstH::state_of(dst[i]) == ES_ALIVE) dst[i].~EDstH();
+  } else if (g_elems.liveArmed != live0) fail("after a throw: objects created by the algorithm are still alive (or too many were destroyed)");
+  G.faultFired = threw;
+}
+static void run_hetero_case(const Case &c) {
+  int n = c.len;
+  ESrcH *src = static_cast<ESrcH *>(g_heap.allocate((size_t)(n ? n : 1) * sizeof(ESrcH), 0, 0, DOM_STD, false));
+  EDstH *dst = static_cast<EDstH *>(g_heap.allocate((size_t)(n ? n : 1) * sizeof(EDstH), 0, 0, DOM_STD, false));
+  for (int i = 0; i < n; ++i) { src[i].key_ = 10 + i; src[i].pay_ = 100 + i; }
+  switch (c.iter) {
+    case I_RA: hetero_algo(c, WrapIt<ESrcH, std::random_access_iterator_tag>(src), src, dst, n); break;
+    case I_BIDI: hetero_algo(c, WrapIt<ESrcH, std::bidirectional_iterator_tag>(src), src, dst, n); break;
+    case I_FWD: hetero_algo(c, WrapIt<ESrcH, std::forward_iterator_tag>(src), src, dst, n); break;
+    case I_CPTR: hetero_algo(c, static_cast<const ESrcH *>(src), src, dst, n); break;
+    default: hetero_algo(c, src, src, dst, n); break;
+  }
+  g_heap.check_canaries();
+  g_heap.deallocate(src, (size_t)(n ? n : 1) * sizeof(ESrcH), 0, 0, DOM_STD, true);
+  g_heap.deallocate(dst, (size_t)(n ? n : 1) * sizeof(EDstH), 0, 0, DOM_STD, true);
+}
 
 // arrays: pre-C++20 emulations only (std::construct_at / C++17 std::destroy_at do not accept them the same way)
 template <class T>
@@ -543,6 +626,8 @@ static bool exec_case(const Case &c) {
       case VAL_NONTR: { Runner<ENonTr<true> > r; r.run_case(c); } break;
       case VAL_AGG: { Runner<EAgg> r; r.run_case(c); } break;
       case VAL_ASSIGNHOOK: { Runner<EAssignHook> r; r.run_case(c); } break;
+      case VAL_USERMOVE: { Runner<EUserMove> r; r.run_case(c); } break;
+      case VAL_HETERO: run_hetero_case(c); break;
       default: { Runner<EThrowMove> r; r.run_case(c); } break;
     }
   }
@@ -580,6 +665,7 @@ static bool applicable(const Case &c) {
   if (!range && !reloc && c.iter != I_PTR) return false;
   if (reloc && (c.iter == I_MOVE || c.iter == I_INPUT)) return false;  // relocation needs a multi-pass, lvalue source
   if ((c.algo == A_CONSTRUCT_AT_ARRAY || c.algo == A_DESTROY_AT_ARRAY) && c.val != VAL_NONTR && c.val != VAL_THROWMOVE) return false;
+  if (c.val == VAL_HETERO && !range && !reloc) return false;
   return true;
 }
 
@@ -648,6 +734,8 @@ int main(int argc, char **argv) {
       c.algo = (int)r.below(A_NALGO); c.len = (int)r.below(7); c.iter = (int)r.below(I_NITER); c.val = (int)r.below(VAL_NVAL); c.throwIdx = -1;
       {  // steer inapplicable draws to an applicable neighbour instead of skipping them
         bool range = c.algo >= A_UCOPY && c.algo <= A_UMOVE_N, reloc = c.algo == A_URELOC || c.algo == A_URELOC_N;
+        if (c.val == VAL_HETERO && !range && !reloc) c.algo = A_UCOPY + (int)r.below(4);
+        range = c.algo >= A_UCOPY && c.algo <= A_UMOVE_N; reloc = c.algo == A_URELOC || c.algo == A_URELOC_N;
         if (!range && !reloc) c.iter = I_PTR;
         else if (reloc && (c.iter == I_MOVE || c.iter == I_INPUT)) c.iter = c.iter == I_MOVE ? I_REV : I_STRIDE;
       }
